@@ -58,7 +58,7 @@ pub fn oracle_props(oracle: &str) -> &'static [&'static str] {
         "argv" | "image" | "env" | "cwd" | "ids" | "pgid" | "nul_accepted" => &["C06", "C16"],
         "ok_without_exec" | "err_with_child" | "wrong_errno" | "fd_leak_parent" => &["C07", "C14"],
         "zombie_left" | "orphan_left" => &["C07", "C12", "C13", "C14"],
-        "fd_leak_child" | "eof_blocked_by_stranger" => &["C08"],
+        "fd_leak_child" | "eof_blocked_by_stranger" | "eof_waits_for_lingering" => &["C08"],
         "status_wrong" | "status_changed" | "status_while_running" | "syscall_after_final" | "echild_not_undetermined" => &["C09"],
         "signal_wrong" | "signal_after_observed" => &["C10"],
         "poll_blocked" | "wt_early" | "wt_late" | "wt_exit_late" | "wt_syscalls_when_known" => &["C11"],
